@@ -44,32 +44,38 @@ Record mon := mkMon {
   m_quiet : list (nat * quiet);
   m_gate : list (str * gstate);                          (* service name -> last gate state set by a command *)
   m_open : list (nat * nat);                             (* goroutine -> target of its open Drain call *)
+  m_cmd_dt : list (nat * N);                             (* commands in progress -> the drain timeout they were given *)
+  m_claim_idx : list (nat * nat);                        (* request -> index of its KClaim *)
+  m_begin_idx : list (nat * nat);                        (* target -> index of its latest KDrainBegin (full drain) *)
   m_fail : list (nat * N * nat * bool)                   (* index, code, request/target, known *)
 }.
 
-Definition mon0 : mon := mkMon [] [] [] [] [] [] [] [] [] [] [] [] [] [] [] [] [].
+Definition mon0 : mon := mkMon [] [] [] [] [] [] [] [] [] [] [] [] [] [] [] [] [] [] [] [].
 
 (** setters (one per field we update) *)
 Definition set_fail (m : mon) f := mkMon (m_lb_targets m) (m_target_lb m) (m_slots m) (m_names m) (m_installed m) (m_cmds m)
-  (m_inflight m) (m_routed m) (m_gated m) (m_drain_dl m) (m_snap m) (m_dl_hit m) (m_cut m) (m_quiet m) (m_gate m) (m_open m) f.
+  (m_inflight m) (m_routed m) (m_gated m) (m_drain_dl m) (m_snap m) (m_dl_hit m) (m_cut m) (m_quiet m) (m_gate m) (m_open m) (m_cmd_dt m) (m_claim_idx m) (m_begin_idx m) f.
 Definition set_quiet (m : mon) q := mkMon (m_lb_targets m) (m_target_lb m) (m_slots m) (m_names m) (m_installed m) (m_cmds m)
-  (m_inflight m) (m_routed m) (m_gated m) (m_drain_dl m) (m_snap m) (m_dl_hit m) (m_cut m) q (m_gate m) (m_open m) (m_fail m).
+  (m_inflight m) (m_routed m) (m_gated m) (m_drain_dl m) (m_snap m) (m_dl_hit m) (m_cut m) q (m_gate m) (m_open m) (m_cmd_dt m) (m_claim_idx m) (m_begin_idx m) (m_fail m).
 Definition set_cmds (m : mon) c := mkMon (m_lb_targets m) (m_target_lb m) (m_slots m) (m_names m) (m_installed m) c
-  (m_inflight m) (m_routed m) (m_gated m) (m_drain_dl m) (m_snap m) (m_dl_hit m) (m_cut m) (m_quiet m) (m_gate m) (m_open m) (m_fail m).
+  (m_inflight m) (m_routed m) (m_gated m) (m_drain_dl m) (m_snap m) (m_dl_hit m) (m_cut m) (m_quiet m) (m_gate m) (m_open m) (m_cmd_dt m) (m_claim_idx m) (m_begin_idx m) (m_fail m).
 Definition set_inflight (m : mon) x := mkMon (m_lb_targets m) (m_target_lb m) (m_slots m) (m_names m) (m_installed m) (m_cmds m)
-  x (m_routed m) (m_gated m) (m_drain_dl m) (m_snap m) (m_dl_hit m) (m_cut m) (m_quiet m) (m_gate m) (m_open m) (m_fail m).
+  x (m_routed m) (m_gated m) (m_drain_dl m) (m_snap m) (m_dl_hit m) (m_cut m) (m_quiet m) (m_gate m) (m_open m) (m_cmd_dt m) (m_claim_idx m) (m_begin_idx m) (m_fail m).
 Definition set_slots (m : mon) x := mkMon (m_lb_targets m) (m_target_lb m) x (m_names m) (m_installed m) (m_cmds m)
-  (m_inflight m) (m_routed m) (m_gated m) (m_drain_dl m) (m_snap m) (m_dl_hit m) (m_cut m) (m_quiet m) (m_gate m) (m_open m) (m_fail m).
+  (m_inflight m) (m_routed m) (m_gated m) (m_drain_dl m) (m_snap m) (m_dl_hit m) (m_cut m) (m_quiet m) (m_gate m) (m_open m) (m_cmd_dt m) (m_claim_idx m) (m_begin_idx m) (m_fail m).
 Definition set_installed (m : mon) x := mkMon (m_lb_targets m) (m_target_lb m) (m_slots m) (m_names m) x (m_cmds m)
-  (m_inflight m) (m_routed m) (m_gated m) (m_drain_dl m) (m_snap m) (m_dl_hit m) (m_cut m) (m_quiet m) (m_gate m) (m_open m) (m_fail m).
+  (m_inflight m) (m_routed m) (m_gated m) (m_drain_dl m) (m_snap m) (m_dl_hit m) (m_cut m) (m_quiet m) (m_gate m) (m_open m) (m_cmd_dt m) (m_claim_idx m) (m_begin_idx m) (m_fail m).
 Definition set_drains (m : mon) dl sn hit cut := mkMon (m_lb_targets m) (m_target_lb m) (m_slots m) (m_names m) (m_installed m) (m_cmds m)
-  (m_inflight m) (m_routed m) (m_gated m) dl sn hit cut (m_quiet m) (m_gate m) (m_open m) (m_fail m).
+  (m_inflight m) (m_routed m) (m_gated m) dl sn hit cut (m_quiet m) (m_gate m) (m_open m) (m_cmd_dt m) (m_claim_idx m) (m_begin_idx m) (m_fail m).
 
 Definition set_gate (m : mon) g := mkMon (m_lb_targets m) (m_target_lb m) (m_slots m) (m_names m) (m_installed m) (m_cmds m)
-  (m_inflight m) (m_routed m) (m_gated m) (m_drain_dl m) (m_snap m) (m_dl_hit m) (m_cut m) (m_quiet m) g (m_open m) (m_fail m).
+  (m_inflight m) (m_routed m) (m_gated m) (m_drain_dl m) (m_snap m) (m_dl_hit m) (m_cut m) (m_quiet m) g (m_open m) (m_cmd_dt m) (m_claim_idx m) (m_begin_idx m) (m_fail m).
 
 Definition set_open (m : mon) o := mkMon (m_lb_targets m) (m_target_lb m) (m_slots m) (m_names m) (m_installed m) (m_cmds m)
-  (m_inflight m) (m_routed m) (m_gated m) (m_drain_dl m) (m_snap m) (m_dl_hit m) (m_cut m) (m_quiet m) (m_gate m) o (m_fail m).
+  (m_inflight m) (m_routed m) (m_gated m) (m_drain_dl m) (m_snap m) (m_dl_hit m) (m_cut m) (m_quiet m) (m_gate m) o (m_cmd_dt m) (m_claim_idx m) (m_begin_idx m) (m_fail m).
+
+Definition set_aux (m : mon) dt ci bi := mkMon (m_lb_targets m) (m_target_lb m) (m_slots m) (m_names m) (m_installed m) (m_cmds m)
+  (m_inflight m) (m_routed m) (m_gated m) (m_drain_dl m) (m_snap m) (m_dl_hit m) (m_cut m) (m_quiet m) (m_gate m) (m_open m) dt ci bi (m_fail m).
 
 Definition gate_of (m : mon) (name : str) : gstate :=
   match find (fun p => str_eqb (fst p) name) (m_gate m) with Some (_, g) => g | None => GRunning end.
@@ -91,11 +97,12 @@ Definition installed_for (m : mon) (name : str) : option nat :=
 Definition mon_step (m : mon) (i : nat) (e : event) : mon :=
   match e_k e with
   | KSvcName s n => mkMon (m_lb_targets m) (m_target_lb m) (m_slots m) (nset (m_names m) s n) (m_installed m) (m_cmds m)
-      (m_inflight m) (m_routed m) (m_gated m) (m_drain_dl m) (m_snap m) (m_dl_hit m) (m_cut m) (m_quiet m) (m_gate m) (m_open m) (m_fail m)
+      (m_inflight m) (m_routed m) (m_gated m) (m_drain_dl m) (m_snap m) (m_dl_hit m) (m_cut m) (m_quiet m) (m_gate m) (m_open m) (m_cmd_dt m) (m_claim_idx m) (m_begin_idx m) (m_fail m)
   | KLbNew lb ts => mkMon (nset (m_lb_targets m) lb ts) (fold_left (fun acc t => nset acc t lb) ts (m_target_lb m))
       (m_slots m) (m_names m) (m_installed m) (m_cmds m)
-      (m_inflight m) (m_routed m) (m_gated m) (m_drain_dl m) (m_snap m) (m_dl_hit m) (m_cut m) (m_quiet m) (m_gate m) (m_open m) (m_fail m)
+      (m_inflight m) (m_routed m) (m_gated m) (m_drain_dl m) (m_snap m) (m_dl_hit m) (m_cut m) (m_quiet m) (m_gate m) (m_open m) (m_cmd_dt m) (m_claim_idx m) (m_begin_idx m) (m_fail m)
   | KIssue c k name => set_cmds m (nset (m_cmds m) c (mkC k name None None None))
+  | KParams c _ dt _ => set_aux m (nset (m_cmd_dt m) c dt) (m_claim_idx m) (m_begin_idx m)
   | KSvcCopy old new =>
     set_slots m (nset (m_slots m) new (match nget (m_slots m) old with Some x => x | None => (None, None) end))
   | KSlot s rollout lb replaced =>
@@ -135,11 +142,12 @@ Definition mon_step (m : mon) (i : nat) (e : event) : mon :=
     | _ => m
     end
   | KRouted r _ => mkMon (m_lb_targets m) (m_target_lb m) (m_slots m) (m_names m) (m_installed m) (m_cmds m)
-      (m_inflight m) (nset (m_routed m) r i) (m_gated m) (m_drain_dl m) (m_snap m) (m_dl_hit m) (m_cut m) (m_quiet m) (m_gate m) (m_open m) (m_fail m)
+      (m_inflight m) (nset (m_routed m) r i) (m_gated m) (m_drain_dl m) (m_snap m) (m_dl_hit m) (m_cut m) (m_quiet m) (m_gate m) (m_open m) (m_cmd_dt m) (m_claim_idx m) (m_begin_idx m) (m_fail m)
   | KGateResult r _ _ => mkMon (m_lb_targets m) (m_target_lb m) (m_slots m) (m_names m) (m_installed m) (m_cmds m)
-      (m_inflight m) (m_routed m) (nset (m_gated m) r i) (m_drain_dl m) (m_snap m) (m_dl_hit m) (m_cut m) (m_quiet m) (m_gate m) (m_open m) (m_fail m)
+      (m_inflight m) (m_routed m) (nset (m_gated m) r i) (m_drain_dl m) (m_snap m) (m_dl_hit m) (m_cut m) (m_quiet m) (m_gate m) (m_open m) (m_cmd_dt m) (m_claim_idx m) (m_begin_idx m) (m_fail m)
   | KClaim t r =>
-    let m1 := set_inflight m (nset (m_inflight m) t (r :: inflight_of m t)) in
+    let m0 := set_aux m (m_cmd_dt m) (nset (m_claim_idx m) r i) (m_begin_idx m) in
+    let m1 := set_inflight m0 (nset (m_inflight m0) t (r :: inflight_of m0 t)) in
     match nget (m_quiet m) t with
     | Some q =>
       (* the recorded finding: the request was already routed (deploy) / past the gate (pause, stop)
@@ -155,9 +163,13 @@ Definition mon_step (m : mon) (i : nat) (e : event) : mon :=
   | KDrainBegin t orig timeout =>
     match orig with
     | TDraining => m
-    | _ => set_open (set_drains m (nset (m_drain_dl m) (gid (e_by e)) (e_t e + timeout)) (nset (m_snap m) (gid (e_by e)) [])
-                      (nremove (gid (e_by e)) (m_dl_hit m)) (m_cut m))
-                    (nset (m_open m) (gid (e_by e)) t)
+    | _ =>
+      (* grace period = the drain timeout a command in progress was GIVEN (smallest if several) *)
+      let granted := match map snd (m_cmd_dt m) with [] => timeout | d :: ds => fold_left N.min ds d end in
+      let m1 := set_aux m (m_cmd_dt m) (m_claim_idx m) (nset (m_begin_idx m) t i) in
+      set_open (set_drains m1 (nset (m_drain_dl m1) (gid (e_by e)) (e_t e + granted)) (nset (m_snap m1) (gid (e_by e)) [])
+                      (nremove (gid (e_by e)) (m_dl_hit m1)) (m_cut m1))
+                    (nset (m_open m1) (gid (e_by e)) t)
     end
   | KStateSet t _ new =>
     (* the restore that ends this goroutine's Drain call *)
@@ -190,6 +202,7 @@ Definition mon_step (m : mon) (i : nat) (e : event) : mon :=
        through KTargetFailed + the status here *)
     m
   | KReturn c res =>
+    let m := set_aux m (filter (fun p => negb (Nat.eqb (fst p) c)) (m_cmd_dt m)) (m_claim_idx m) (m_begin_idx m) in
     match res with
     | CROk =>
       let rc := cmd_get m c in
@@ -221,7 +234,11 @@ Definition mon_step (m : mon) (i : nat) (e : event) : mon :=
                                   | _ => nget (m_gated m) r end in
                      (* in flight un-cut at return can only be a request that slipped in during the drain:
                         the recorded finding if it was inside the proxy before the switch *)
-                     (i, 1, r, match stamp with Some x => Nat.ltb x stale_before | None => false end)) bad in
+                     (* ... and that slipped in AFTER this target's drain had begun (a request in flight before the
+                        drain must have been waited for or cut off; a target that was never drained is no excuse) *)
+                     let slipped := match nget (m_claim_idx m) r, nget (m_begin_idx m) (fst tr) with
+                                    | Some ci, Some bi => Nat.ltb bi ci | _, _ => false end in
+                     (i, 1, r, slipped && match stamp with Some x => Nat.ltb x stale_before | None => false end)) bad in
       let until := match c_kind rc with CkPause | CkStop => Some (c_name rc) | _ => None end in
       (* a pause/stop overtaken by a resume (overlapping commands) leaves nothing quiet *)
       let resumed := match c_kind rc, gate_of m (c_name rc) with
